@@ -78,6 +78,8 @@ MUTANTS = {
     'revert_F5_json_path_replace': ('C20', {'missing_json', 'exit_status'}, 'git:22e6eea', 'JSON path mangled for repeated / suffix-less names'),
     'revert_F6_parser_drops_inf': ('C10', {'parse_mismatch'}, 'git:b305b60', "report cell printed as 'inf' comes back as None"),
     'revert_F8_hash_placeholder_prefix_match': ('C13', {'wrong_distribution'}, 'git:a461d9d', "'#' resolved against 'Reservoir Volume Option'"),
+    'revert_F9_thousands_separators': ('C14', {'row_malformed', 'stats_mismatch'}, 'git:31af434', 'value with separators tears the row'),
+    'revert_F10_missing_output_skipped': ('C14', {'row_malformed'}, 'git:fc44f1f', 'column dropped when the report lacks an output'),
     'revert_F7_cli_exit_0_on_bare_sys_exit': ('C20', {'exit_status'}, 'git:9802755', 'bare sys.exit() -> exit status 0'),
     'cli_exit_0_on_failure': ('C20', {'exit_status'}, [
         (MAIN, "rc = 1\ntry:\n    geophires.main()\n    rc = 0\nexcept SystemExit:", "rc = 0\ntry:\n    geophires.main()\nexcept Exception as e:\n    print(e)\nexcept SystemExit:")],
